@@ -24,7 +24,8 @@ EXTENDS Integers, Sequences, FiniteSets, TLC, Json
 CONSTANTS Fuel,       \* literals in one expression
           Ops,        \* operators in one expression
           MaxDepth,   \* tree depth bound
-          LitSet,     \* "full" | "small"
+          LitSet,     \* "full" | "small" | "chain" | "two"
+          OpSet,      \* "all" | "core": the binary operators the generator uses
           AllowFuncPow, \* TRUE: a prefix function (chain) may be the unparenthesised left operand of ^
           AnyPos,     \* reductions anywhere on the stack (simulation) / on top only (BFS)
           Emit
@@ -88,7 +89,12 @@ LitsFull == {Lit("0", 0, 1), Lit("1", 1, 1), Lit("2", 2, 1), Lit("3", 3, 1), Lit
              Lit("0.5", 1, 2), Lit("1.5", 3, 2), Lit("2.5", 5, 2), Lit("0.25", 1, 4), Lit("0.1", 1, 10),
              Lit(".5", 1, 2), Lit("2.0", 2, 1), Lit("1.25", 5, 4), Lit("0.3", 3, 10)}
 LitsSmall == {Lit("0", 0, 1), Lit("1", 1, 1), Lit("2", 2, 1), Lit("3", 3, 1), Lit("0.5", 1, 2), Lit("1.5", 3, 2), Lit("2.5", 5, 2)}
-Lits == IF LitSet = "full" THEN LitsFull ELSE LitsSmall
+\* palettes for un-parenthesised operator chains: the two groupings of a op b op c differ in value
+\* (2^3^2, 10-4-3, 10/4/2, 10 mod 4 mod 3, 2<3<2, 0 and 3 or 2 ...)
+LitsChain == {Lit("0", 0, 1), Lit("2", 2, 1), Lit("3", 3, 1), Lit("4", 4, 1), Lit("10", 10, 1)}
+LitsTwo   == {Lit("2", 2, 1), Lit("3", 3, 1)}
+Lits == CASE LitSet = "full" -> LitsFull [] LitSet = "chain" -> LitsChain [] LitSet = "two" -> LitsTwo [] OTHER -> LitsSmall
+GenBinOps == IF OpSet = "all" THEN BinOps ELSE {"+", "-", "*", "/", "^", "mod", "<", "=", "and", "round"}
 Un(op, a)     == [k |-> "un", op |-> op, a |-> a]
 Bin(op, a, b) == [k |-> "bin", op |-> op, a |-> a, b |-> b]
 
@@ -183,8 +189,9 @@ SerRed(t) ==
    operator first applies every stacked operator of greater or equal precedence; a prefix
    operator ("-" where an operand is expected, or a function name) is stacked without applying
    anything; ")" applies down to the matching "(".                                              *)
-LitOf(tok) == CHOOSE l \in LitsFull : l.tok = tok
-IsLitTok(tok) == \E l \in LitsFull : l.tok = tok
+AllLits == LitsFull \cup LitsSmall \cup LitsChain \cup LitsTwo
+LitOf(tok) == CHOOSE l \in AllLits : l.tok = tok
+IsLitTok(tok) == \E l \in AllLits : l.tok = tok
 PrecS(o) == IF o = "(" THEN 0 ELSE Prec(o)
 
 ApplyTop(vs, o) ==
@@ -234,7 +241,7 @@ MkUn == /\ ~done /\ ops > Len(stack) - 1
         /\ ops' = ops - 1 /\ UNCHANGED <<fuel, done, feat>>
 
 MkBin == /\ ~done /\ ops > 0
-         /\ \E i \in Positions(2), op \in BinOps :
+         /\ \E i \in Positions(2), op \in GenBinOps :
               /\ Max(stack[i].d, stack[i + 1].d) < MaxDepth
               /\ (AllowFuncPow \/ ~(op = "^" /\ FuncHead(stack[i].t)))
               /\ feat' = IF op = "^" /\ FuncHead(stack[i].t) THEN feat \cup {"funcpow"} ELSE feat
@@ -254,6 +261,9 @@ ASSUME Value(Bin("-", Bin("-", T("7"), T("2")), T("1"))) = IntV(4)              
 ASSUME ReadValue(<<"7", "-", "2", "-", "1">>) = IntV(4)
 ASSUME ReadValue(<<"2", "^", "3", "^", "2">>) = IntV(64)
 ASSUME ReadValue(<<"1", "+", "2", "*", "3">>) = IntV(7)
+ASSUME ReadValue(<<"10", "-", "4", "-", "3">>) = IntV(3) /\ ReadValue(<<"10", "/", "4", "/", "2">>) = [t |-> "num", n |-> 5, d |-> 4, x |-> TRUE]
+ASSUME ReadValue(<<"10", "mod", "4", "mod", "3">>) = IntV(2) /\ ReadValue(<<"2", "<", "3", "<", "2">>) = IntV(1)
+ASSUME ReadValue(<<"-", "2", "^", "3", "^", "2">>) = IntV(64) /\ ReadValue(<<"1", "+", "2", "^", "3", "^", "2", "*", "2">>) = IntV(129)
 ASSUME ReadValue(<<"-", "2", "^", "2">>) = IntV(4)                                  \* unary minus binds tighter than ^
 ASSUME ReadValue(<<"floor", "1.5", "^", "2">>) = IntV(1)                            \* prefix functions bind tighter than ^
 ASSUME ReadValue(<<"not", "0", "+", "1">>) = IntV(2)
